@@ -46,7 +46,7 @@ def m_expect(ex, callee, args):
     raise Panic('expect failed @ ' + ex.stack[-1][-60:])
 def opt_parts(ex, v):
     """(present: z3 Bool, payload value or None) of an Option value that may be concrete or lazy"""
-    if isinstance(v, Agg): return (z3.BoolVal(v.variant == 1), v.fields[0] if v.variant == 1 else None)
+    if isinstance(v, Agg): return (v.variant == 1, v.fields[0] if v.variant == 1 else None)
     return (ex.discr_of(v).e == 1, ex.field_of(v, 'Some', 0, 'T'))
 def m_opt_is(ex, callee, args):
     v = strip(ex, args[0]); d = ex.discr_of(v)
@@ -146,7 +146,7 @@ def m_ref_eq(ex, callee, args):
     return ex.call('<%s as PartialEq>::%s' % (m.group(1), m.group(2)), [ex.deref_val(args[0]), ex.deref_val(args[1])])
 def m_ne(ex, callee, args):
     ty = re.match(r'^<(.*) as PartialEq(?:<.*>)?>::ne$', callee).group(1)
-    return Scalar(z3.Not(ex.call('<%s as PartialEq>::eq' % ty, args).e), 'bool')
+    return Scalar(z_not(ex.call('<%s as PartialEq>::eq' % ty, args).e), 'bool')
 def m_ordering_then(ex, callee, args):
     a = args[0]
     return a if a.variant != 0 else args[1]
@@ -162,7 +162,7 @@ def m_min_max(ex, callee, args):
     if isinstance(a, Ref): a = strip(ex, a); b = strip(ex, b)
     lt = a.e < b.e
     # std: min returns a if a <= b ; max returns b if a <= b  (equal values indistinguishable for ints)
-    return Scalar(z3.If(lt, a.e, b.e) if k == 'min' else z3.If(lt, b.e, a.e), a.ty)
+    return Scalar(z_ite(lt, a.e, b.e) if k == 'min' else z_ite(lt, b.e, a.e), a.ty)
 def m_ord_min_max_generic(ex, callee, args):
     """<T as Ord>::min/max for non-integer T via the type's own cmp (std semantics: max returns other on Equal)"""
     m = re.match(r'^<(.*) as Ord>::(min|max)$', callee); a, b = args
@@ -375,12 +375,12 @@ class RangeIter(It):
         if ex.decide(self.a.e <= self.b.e if self.incl else self.a.e < self.b.e):
             self.n += 1
             if self.n > ex.loop_budget:
-                raise Unsupported('LOOP-BUDGET: range loop exceeded %d iterations (range ..%s)' % (ex.loop_budget, z3.simplify(self.b.e)))
-            x = self.a; self.a = Scalar(z3.simplify(self.a.e + 1), self.a.ty); return x
+                raise Unsupported('LOOP-BUDGET: range loop exceeded %d iterations (range ..%s)' % (ex.loop_budget, self.b.e))
+            x = self.a; self.a = Scalar(self.a.e + 1 if is_c(self.a.e) else norm(z3.simplify(self.a.e + 1)), self.a.ty); return x
         return None
     def next_back(self, ex):
         if ex.decide(self.a.e < self.b.e):
-            self.b = Scalar(z3.simplify(self.b.e - 1), self.b.ty); return self.b
+            self.b = Scalar(self.b.e - 1 if is_c(self.b.e) else norm(z3.simplify(self.b.e - 1)), self.b.ty); return self.b
         return None
 class MapIt(It):
     def __init__(self, inner, f): self.inner = inner; self.f = f
@@ -666,7 +666,7 @@ def m_it_max(ex, callee, args):
     while True:
         x = it.next(ex)
         if x is None: break
-        if isinstance(x, Scalar): best = x if best is None else Scalar(z3.If(x.e >= best.e, x.e, best.e), x.ty)
+        if isinstance(x, Scalar): best = x if best is None else Scalar(z_ite(x.e >= best.e, x.e, best.e), x.ty)
         else: best = x if best is None or not _key_less(ex, x, best) else best
     return some(best) if best is not None else NONE()
 def m_it_min(ex, callee, args):
@@ -674,7 +674,7 @@ def m_it_min(ex, callee, args):
     while True:
         x = it.next(ex)
         if x is None: break
-        if isinstance(x, Scalar): best = x if best is None else Scalar(z3.If(x.e < best.e, x.e, best.e), x.ty)
+        if isinstance(x, Scalar): best = x if best is None else Scalar(z_ite(x.e < best.e, x.e, best.e), x.ty)
         else: best = x if best is None or _key_less(ex, x, best) else best
     return some(best) if best is not None else NONE()
 def m_it_contains(ex, callee, args):
@@ -698,9 +698,9 @@ def val_eq(ex, a, b):
     a = strip(ex, a); b = strip(ex, b)
     if isinstance(a, Scalar): return a.e == b.e
     if isinstance(a, Agg) and isinstance(b, Agg):
-        if a.variant != b.variant or len(a.fields) != len(b.fields): return z3.BoolVal(False)
-        return z3.And(*[val_eq(ex, x, y) for x, y in zip(a.fields, b.fields)]) if a.fields else z3.BoolVal(True)
-    if a is b: return z3.BoolVal(True)
+        if a.variant != b.variant or len(a.fields) != len(b.fields): return False
+        return z_and(*[val_eq(ex, x, y) for x, y in zip(a.fields, b.fields)]) if a.fields else True
+    if a is b: return True
     if isinstance(a, Lazy) and isinstance(b, Lazy):
         en = last_seg(a.ty); da = ex.discr_of(a).e; db = ex.discr_of(b).e; conj = [da == db]
         for key in set(a.kids) | set(b.kids):
@@ -708,8 +708,8 @@ def val_eq(ex, a, b):
             vi = ENUMS.get(en, []).index(key[0]) if key[0] in ENUMS.get(en, []) else None
             fa = ex.field_of(a, key[0], key[1], 'T'); fb = ex.field_of(b, key[0], key[1], 'T')
             e = val_eq(ex, fa, fb)
-            conj.append(e if vi is None else z3.Implies(da == vi, e))
-        return z3.And(*conj)
+            conj.append(e if vi is None else z_or(z_not(da == vi), e))
+        return z_and(*conj)
     if isinstance(a, (Agg, Lazy)) and isinstance(b, (Agg, Lazy)):
         en = last_seg((a if isinstance(a, Lazy) else b).ty)
         da = ex.discr_of(a).e; db = ex.discr_of(b).e
@@ -720,10 +720,10 @@ def val_eq(ex, a, b):
         if isinstance(known, Agg):
             vname = ENUMS.get(en, [None] * 8)[known.variant] if known.variant is not None else None
             for i, f in enumerate(known.fields):
-                conj.append(z3.Implies(da == db, val_eq(ex, f, ex.field_of(other, vname, i, f.ty if isinstance(f, Scalar) else 'T'))))
-            return z3.And(*conj)
+                conj.append(z_or(z_not(da == db), val_eq(ex, f, ex.field_of(other, vname, i, f.ty if isinstance(f, Scalar) else 'T'))))
+            return z_and(*conj)
         raise Unsupported('val_eq lazy/lazy')
-    if isinstance(a, StrVal) and isinstance(b, StrVal): return z3.BoolVal(a.text == b.text)
+    if isinstance(a, StrVal) and isinstance(b, StrVal): return a.text == b.text
     raise Unsupported('val_eq %r %r' % (a, b))
 def map_entries(ex, mp):
     """entries in iteration order: insertion order for hash maps (iteration order of hash maps is unspecified;
@@ -839,18 +839,19 @@ def m_div_ceil(ex, callee, args):
     a, b = args
     if conc(b) is None: raise Unsupported('div_ceil by a symbolic value')
     if conc(b) == 0: raise Panic('attempt to divide by zero')
-    return Scalar(z3.simplify((a.e + b.e - 1) / b.e), a.ty)
+    if is_c(a.e): return Scalar(-(-a.e // b.e), a.ty)
+    return Scalar(norm(z3.simplify((a.e + b.e - 1) / b.e)), a.ty)
 def m_saturating_sub(ex, callee, args):
     a, b = args; lo = ty_range(a.ty)[0]
     d = a.e - b.e
-    return Scalar(z3.If(d < lo, z3.IntVal(lo), d), a.ty)
+    return Scalar(z_ite(d < lo, lo, d), a.ty)
 def m_checked(ex, callee, args):
     op = {'checked_mul': 'Mul', 'checked_add': 'Add', 'checked_sub': 'Sub'}[callee.split('::')[-1]]
     r = ex.binop(op + 'WithOverflow', args[0], args[1])
     if ex.decide(r.fields[1].e): return NONE()
     return some(r.fields[0])
 def m_abs(ex, callee, args):
-    a = args[0]; return Scalar(z3.If(a.e < 0, -a.e, a.e), a.ty)
+    a = args[0]; return Scalar(z_ite(a.e < 0, -a.e, a.e), a.ty)
 def m_once(ex, callee, args): return ListIter([args[0]])
 def m_empty_iter(ex, callee, args): return ListIter([])
 def m_mem_swap(ex, callee, args):
